@@ -16,9 +16,20 @@ FDIM = {'R2': 2, 'R3': 3, 'SE2': 3, 'SE3': 7}
 DIM = {'R2': 2, 'R3': 3, 'SE2': 2, 'SE3': 3}
 
 
+_calls = [0]
+
+
 def pose(kind, t, r=(), shift=0, negq=False):
-    """kind, integer (or Fraction) translation, lattice rotation (<<c,s,den>> / <<x,y,z,w,den>>) -> real pose object."""
-    tt = [float(x) for x in t]
+    """kind, integer (or Fraction) translation, lattice rotation (<<c,s,den>> / <<x,y,z,w,den>>) -> real pose object.
+
+    Every third call hands the translation over as Python ints / an integer ndarray / a tuple instead of floats (legal argument forms
+    of the constructors), so that a dependence on the argument form shows."""
+    _calls[0] += 1
+    form = _calls[0] % 6
+    if all(float(x).is_integer() for x in t) and form in (0, 2, 4):
+        tt = [int(x) for x in t] if form == 0 else (np.array([int(x) for x in t], dtype=np.int64) if form == 2 else tuple(float(x) for x in t))
+    else:
+        tt = [float(x) for x in t]
     if kind == 'R2':
         return PoseR2(tt)
     if kind == 'R3':
@@ -33,6 +44,10 @@ def pose(kind, t, r=(), shift=0, negq=False):
 
 
 def info(W):
+    """Information matrix; every fourth one is handed over as an integer ndarray (the lattice matrices are integer valued)."""
+    _calls[0] += 1
+    if _calls[0] % 4 == 0 and all(float(x).is_integer() for row in W for x in row):
+        return np.array([[int(x) for x in row] for row in W], dtype=np.int64)
     return np.array([[float(x) for x in row] for row in W], dtype=np.float64)
 
 
